@@ -21,6 +21,12 @@ Theorem C14_sites_typed : forall s, In s sites -> site_ok catalogue s = true.
 Proof. apply forallb_forall. vm_compute. reflexivity. Qed.
 Print Assumptions C14_sites_typed.
 
+(* the two allow-listed untagged docutils-level messages are single call sites: no further
+   reporter.warning call hides in the same functions *)
+Theorem C14_untagged_sites_bounded : untagged_sites_bounded sites = true.
+Proof. vm_compute. reflexivity. Qed.
+Print Assumptions C14_untagged_sites_bounded.
+
 (* the tags those sites can emit are catalogue tags (myst.<value>) or ref.footnote *)
 Theorem C14_site_tags_in_catalogue : forall s, In s sites -> site_tags_allowed catalogue s = true.
 Proof. apply forallb_forall. vm_compute. reflexivity. Qed.
